@@ -160,7 +160,7 @@ func checkC10(P *Program, r *Result, tier string) {
 		r.add("VALIDATE", shortName(decode), "return", "declared size = 4 × the 16-bit size field (no wrap)", pos, fa.proveEq(S, f16.scale(bi(4)), ret.Block()), "size expands to "+run.A.linString(S))
 		proto := false
 		for _, c := range callsIn(decode) {
-			if cal := c.Common().StaticCallee(); cal != nil && cal.Name() == "checkProtocolID" {
+			if cal := c.Common().StaticCallee(); cal != nil && cal == ttProtoCheck(P) {
 				if guardedNil(ret, c.(*ssa.Call)) {
 					proto = true
 				}
@@ -174,7 +174,7 @@ func checkC10(P *Program, r *Result, tier string) {
 		r.add("LENGTHS", shortName(decode), "return", "PayloadLen = total length + 4 − HeaderLen", pos, pl != nil && hl != nil && fa.proveEq(pl, total.addConst(4).sub(hl), ret.Block()), "")
 	}
 	// the allow-list
-	if fn := P.Func(relTT, "checkProtocolID"); r.require("ttheader.checkProtocolID", fn != nil) {
+	if fn := ttProtoCheck(P); r.require("ttheader: the protocol-id allow-list behind Decode", fn != nil) {
 		decl := declaredConsts(P, relTT, "ProtocolID")
 		okCases := true
 		detail := ""
@@ -263,7 +263,7 @@ func cellFieldAt(fa *FA, in ssa.Instruction, base, field string) *Lin {
 
 // sectionRules: error discipline of the info-section readers and map creation.
 func sectionRules(P *Program, r *Result, ruleErr, ruleMap string) {
-	rk := P.Func(relTT, "readKVInfo")
+	rk := ttReadKV(P)
 	if !r.require("ttheader.readKVInfo", rk != nil) {
 		return
 	}
@@ -271,7 +271,7 @@ func sectionRules(P *Program, r *Result, ruleErr, ruleMap string) {
 	var readers []*ssa.Function
 	seen := map[*ssa.Function]bool{}
 	for _, c := range callsIn(rk) {
-		if cal := c.Common().StaticCallee(); cal != nil && inRepo(cal) && !seen[cal] && strings.HasPrefix(cal.Name(), "read") {
+		if cal := c.Common().StaticCallee(); cal != nil && inRepo(cal) && !seen[cal] && isSectionReader(cal) {
 			seen[cal] = true
 			readers = append(readers, cal)
 		}
@@ -457,7 +457,7 @@ func checkC06(P *Program, r *Result, tier string) {
 		"SECTIONS (the info ids the encoder emits are cases of the decoder; per section the primitive write sequence pairs with the read sequence; the ACL token uses the same key constant on both sides), " +
 		"plus the decode-side rules of C10 that the round trip relies on (size arithmetic without wrap, HeaderLen/PayloadLen formulas, complete sections, copied strings)."
 	enc := P.Func(relTT, "Encode")
-	wkv := P.Func(relTT, "writeKVInfo")
+	wkv := ttWriteKV(P)
 	if !r.require("ttheader.Encode", enc != nil) || !r.require("ttheader.writeKVInfo", wkv != nil) {
 		return
 	}
@@ -974,7 +974,7 @@ func constEmission(fn *ssa.Function, depth int) (int64, bool) {
 
 // sectionsRule: ids and primitive sequences of encoder sections pair with the decoder.
 func sectionsRule(P *Program, r *Result, wkv *ssa.Function) {
-	rk := P.Func(relTT, "readKVInfo")
+	rk := ttReadKV(P)
 	if rk == nil {
 		return
 	}
@@ -1276,4 +1276,45 @@ func isDispatchedTag(v ssa.Value) bool {
 		return false
 	}
 	return walk(v)
+}
+
+// internal anchors of the ttheader package, located from the exported entry points by signature
+func ttProtoCheck(P *Program) *ssa.Function {
+	return P.findReachable([]*ssa.Function{P.Func(relTT, "Decode")}, func(f *ssa.Function) bool {
+		return sigIs(f, "(uint8)", "(error)")
+	})
+}
+
+func ttReadKV(P *Program) *ssa.Function {
+	return P.findReachable([]*ssa.Function{P.Func(relTT, "Decode")}, func(f *ssa.Function) bool {
+		return sigIs(f, "(int, []byte)", "(map[uint16]string, map[string]string, error)")
+	})
+}
+
+func ttWriteKV(P *Program) *ssa.Function {
+	return P.findReachable([]*ssa.Function{P.Func(relTT, "Encode")}, func(f *ssa.Function) bool {
+		res := f.Signature.Results()
+		if res.Len() != 2 || !isInteger(res.At(0).Type()) || !isErrorType(res.At(1).Type()) || len(f.Params) < 3 {
+			return false
+		}
+		// (size so far, the two info maps, the writer) → (size, error)
+		maps := 0
+		for _, p := range f.Params {
+			if _, ok := p.Type().Underlying().(*types.Map); ok {
+				maps++
+			}
+		}
+		return isInteger(f.Params[0].Type()) && maps == 2 && types.IsInterface(f.Params[len(f.Params)-1].Type())
+	})
+}
+
+// isSectionReader: an unexported ttheader function that parses one info section:
+// takes the cursor (*int), the buffer and the destination map.
+func isSectionReader(f *ssa.Function) bool {
+	if f == nil || f.Blocks == nil || len(f.Params) != 3 {
+		return false
+	}
+	_, isPtr := f.Params[0].Type().Underlying().(*types.Pointer)
+	_, isMap := f.Params[2].Type().Underlying().(*types.Map)
+	return isPtr && isByteSlice(f.Params[1].Type()) && isMap
 }
